@@ -224,6 +224,14 @@ HELPERS = [
                 'subdir_tasks.spawn(async move { let _permit = job_limit.acquire().await.unwrap();'
                 '(subdir_name.clone(), transport.list_dir(&subdir_name).await) }); }',
          modules=['spawn_subdir_listings']),
+    # pin only (no bounded harness): `subdirs()` is not extracted at all -- blockdir_list.rs ASSUMES that it returns the
+    # three-character sub-directories of d/.  A change of its text makes the caller `list_blocks` not posable.
+    dict(helper='subdirs_chain', unit='blockdir', prelude='blockdir_list.rs', file='src/blockdir.rs', scope=None,
+         fn='subdirs', degrade_fn='list_blocks', pin_only=True, mode='chain', prefix=r'\.list_dir\(""\)\s*\.await\?',
+         pinned='.into_iter().filter(|entry| entry.kind == Kind::Dir).map(|entry| entry.name).filter(|dirname| {'
+                ' let t = dirname.len() == SUBDIR_NAME_CHARS; if !t { warn!("Unexpected subdirectory in blockdir: {dirname:?}"); } t })'
+                '.collect()',
+         modules=[]),
 ]
 # Not covered, on purpose: stitch_types.rs `lifted_last_apath` has a VERIFIED body (closure with a written-out
 # contract), not an assumed one -- there is nothing to check.
@@ -497,6 +505,8 @@ def check(selected):
     cuts, res, lost = {}, {}, {}
     consts, cnotes = constants()
     for h in HELPERS:
+        if h.get('pin_only'):
+            continue
         try:
             cuts[h['helper']] = cut(h)
         except Lost as e:
@@ -504,6 +514,16 @@ def check(selected):
     wanted = []
     for h in selected:
         name = h['helper']
+        if h.get('pin_only'):
+            # no harness: only the text is pinned (the quick tier degrades the caller when it differs)
+            try:
+                c = cut(h)
+                st = 'snippet changed' if c['changed'] else 'pinned text unchanged (no bounded harness for this snippet)'
+            except Lost as e:
+                st = 'snippet changed'
+            res[name] = {'helper': name, 'unit': h['unit'], 'fn': '%s::%s' % (h['file'], h['fn']), 'prelude': h['prelude'],
+                         'status': st, 'inputs': 0, 'bound': '', 'counterexample': None, 'repo': REPO}
+            continue
         base = {'helper': name, 'unit': h['unit'], 'fn': '%s::%s' % (h['file'], h['fn']), 'prelude': h['prelude'],
                 'status': None, 'inputs': 0, 'bound': '', 'counterexample': None, 'repo': REPO}
         if h.get('also'):
